@@ -499,7 +499,8 @@ func (n *Nodis) Type(key string) string {
 
 // Scan the keys
 func (n *Nodis) Scan(cursor int64, match string, count int64, typ ds.ValueType) (int64, []string) {
-	keyLen := int64(n.store.metadata.Len())
+	records := n.store.records()
+	keyLen := int64(len(records))
 	if keyLen == 0 {
 		return 0, nil
 	}
@@ -510,10 +511,9 @@ func (n *Nodis) Scan(cursor int64, match string, count int64, typ ds.ValueType) 
 	}
 	keys := make([]string, 0)
 	now := time.Now().UnixMilli()
-	tx := newTx(n.store)
 	var iterCursor int64 = 0
 	var finished = true
-	n.store.metadata.Scan(func(key string, m *metadata) bool {
+	visit := func(m *metadata) bool {
 		iterCursor++
 		if cursor--; cursor > 0 {
 			return true
@@ -524,8 +524,15 @@ func (n *Nodis) Scan(cursor int64, match string, count int64, typ ds.ValueType) 
 			return false
 		}
 		count--
-		meta := tx.rLockKey(key)
-		defer meta.commit()
+		// the record's type is filled in when its value is loaded: the write lock
+		m.Lock()
+		defer m.Unlock()
+		if !n.store.current(m) {
+			// deleted since the snapshot was taken
+			return true
+		}
+		key := m.key.Name
+		m.count++
 		matched, _ := filepath.Match(match, key)
 		if matched && !m.expired(now) {
 			if typ != 0 && m.valueType == ds.None && m.value == nil {
@@ -541,7 +548,12 @@ func (n *Nodis) Scan(cursor int64, match string, count int64, typ ds.ValueType) 
 			keys = append(keys, key)
 		}
 		return true
-	})
+	}
+	for _, m := range records {
+		if !visit(m) {
+			break
+		}
+	}
 	if finished {
 		// every entry has been visited
 		return 0, keys
